@@ -4,7 +4,10 @@
 //   adaptor  en = enumerate, rv = reverse
 //   kind     vec std::vector<int>, deq std::deque<int>, set std::set<int> (elems ascending; no mode l), str std::string (elems are
 //            character codes; no mode l), arr std::array<int,N>, list std::list<int>, map std::map<int,int> (keys 0..n-1),
-//            carr int[N] (N >= 1), il std::initializer_list<int>, fv nitro::lang::fixed_vector<int>
+//            carr int[N] (N >= 1), il std::initializer_list<int>, fv nitro::lang::fixed_vector<int>,
+//            ui a user-defined multi-pass range whose bidirectional iterator OWNS state (a std::shared_ptr to the store and a std::string):
+//            copying it is a real copy and MOVING it leaves the source visibly different (null store, position 0 — equal to every
+//            other moved-from iterator, as for a directory iterator or a libstdc++ debug-mode iterator)
 //   mode     l lvalue (the body writes through what it is given), c const lvalue, r temporary inside the for statement,
 //            m std::move of a local, k CONST temporary (a function returning `const C` by value, called inside the for
 //            statement), s static_cast<const C&&>(temporary), q std::move of a const local
@@ -15,7 +18,10 @@
 //   C        contents after the loop whose body assigned  f(index, value) = 3*value + index + 1  (enumerate)
 //            resp. f(value) = 3*value + 7 (reverse)  through the adaptor (mode l only)
 // case:  re <scenario> <kind> <mode> <elems>     — the SAME adaptor object / container used more than once
-//   kind vec | list | map | fv;  mode l: adaptor over an lvalue container, r: adaptor object owning a temporary
+//   kind vec | list | map | fv | ui;  mode l: adaptor over an lvalue container, r: adaptor object owning a temporary
+//   en3 / rv3     (modes l, c const lvalue, r) ONE named adaptor: three range-for statements over it (the second one writes through it in
+//                 mode l), then begin() twice and end() twice on the same adaptor and the two iterator pairs run, last pair first
+//                                                                                    -> V5 <visits 1> .. <visits 5> C <contents | ->
 //   en2 / rv2     auto e = enumerate(c); for (x : e) ..; for (x : e) ..;             -> V2 <visits 1> <visits 2>
 //   enen / enrv   for (x : enumerate(c)) for (y : enumerate(c) resp. reverse(c)) ..  -> NN i:v=<inner visits>|i:v=<inner visits>...
 //   enmod / rvmod adaptor created, THEN every element replaced in place by g(v) = 2*v + 1, then iterated (mode l)
@@ -75,6 +81,60 @@
 
 namespace nl = nitro::lang;
 using Elems = std::vector<int>;
+
+// a multi-pass range with a user-defined iterator that owns state; see "ui" above
+struct UIRange
+{
+    std::shared_ptr<std::vector<int>> store;
+    struct iterator
+    {
+        using iterator_category = std::bidirectional_iterator_tag;
+        using value_type = int;
+        using difference_type = std::ptrdiff_t;
+        using pointer = int*;
+        using reference = int&;
+        std::shared_ptr<std::vector<int>> s;
+        std::size_t pos = 0;
+        std::string label;
+        iterator() = default;
+        iterator(std::shared_ptr<std::vector<int>> st, std::size_t p) : s(std::move(st)), pos(p), label("iterator into a shared store; too long for the small-string buffer") {}
+        iterator(const iterator&) = default;
+        iterator& operator=(const iterator&) = default;
+        iterator(iterator&& o) noexcept : s(std::move(o.s)), pos(o.pos), label(std::move(o.label)) { o.s.reset(); o.pos = 0; o.label.clear(); }
+        iterator& operator=(iterator&& o) noexcept
+        {
+            if (this != &o) { s = std::move(o.s); pos = o.pos; label = std::move(o.label); o.s.reset(); o.pos = 0; o.label.clear(); }
+            return *this;
+        }
+        int& operator*() const { return (*s)[pos]; }
+        int* operator->() const { return &(*s)[pos]; }
+        iterator& operator++() { ++pos; return *this; }
+        iterator operator++(int) { iterator o = *this; ++pos; return o; }
+        iterator& operator--() { --pos; return *this; }
+        iterator operator--(int) { iterator o = *this; --pos; return o; }
+        bool operator==(const iterator& o) const { return s == o.s && pos == o.pos; }
+        bool operator!=(const iterator& o) const { return !(*this == o); }
+    };
+    using const_iterator = iterator;   // a view-like range: constness is shallow
+    using reverse_iterator = std::reverse_iterator<iterator>;
+    using const_reverse_iterator = reverse_iterator;
+    using value_type = int;
+    UIRange() : store(std::make_shared<std::vector<int>>()) {}
+    explicit UIRange(const Elems& e) : store(std::make_shared<std::vector<int>>(e)) {}
+    UIRange(const UIRange& o) : store(std::make_shared<std::vector<int>>(*o.store)) {}
+    UIRange(UIRange&& o) noexcept : store(std::move(o.store)) { o.store = std::make_shared<std::vector<int>>(); }
+    UIRange& operator=(const UIRange& o) { if (this != &o) store = std::make_shared<std::vector<int>>(*o.store); return *this; }
+    UIRange& operator=(UIRange&& o) noexcept { if (this != &o) { store = std::move(o.store); o.store = std::make_shared<std::vector<int>>(); } return *this; }
+    iterator begin() const { return iterator(store, 0); }
+    iterator end() const { return iterator(store, store->size()); }
+    iterator cbegin() const { return begin(); }
+    iterator cend() const { return end(); }
+    reverse_iterator rbegin() const { return reverse_iterator(end()); }
+    reverse_iterator rend() const { return reverse_iterator(begin()); }
+    reverse_iterator crbegin() const { return rbegin(); }
+    reverse_iterator crend() const { return rend(); }
+    std::size_t size() const { return store->size(); }
+};
 
 static int fe(std::size_t i, int v) { return 3 * v + static_cast<int>(i) + 1; }
 static int fr(int v) { return 3 * v + 7; }
@@ -319,9 +379,25 @@ template <class Ad, class Vis> std::string scenario_on(const std::string& sc, Ad
     }
     return "BADCASE";
 }
+template <class C, class Ad> std::string passes_en(Ad& e, bool write, std::size_t n);
+template <class C, class Ad> std::string passes_rv(Ad& r, bool write, std::size_t n);
 template <class Mk> std::string run_reuse(const std::string& sc, char mode, Mk mk, std::size_t n)
 {
     using C = decltype(mk());
+    if (sc == "en3")
+    {
+        if (mode == 'l') { C c = mk(); auto e = nl::enumerate(c); std::string v = passes_en<C>(e, true, n); return v + " C " + contents(c); }
+        if (mode == 'c') { const C c = mk(); auto e = nl::enumerate(c); return passes_en<const C>(e, false, n) + " C -"; }
+        if (mode == 'r') { auto e = nl::enumerate(mk()); return passes_en<const C>(e, false, n) + " C -"; }
+        return "BADCASE";
+    }
+    if (sc == "rv3")
+    {
+        if (mode == 'l') { C c = mk(); auto r = nl::reverse(c); std::string v = passes_rv<C>(r, true, n); return v + " C " + contents(c); }
+        if (mode == 'c') { const C c = mk(); auto r = nl::reverse(c); return passes_rv<const C>(r, false, n) + " C -"; }
+        if (mode == 'r') { auto r = nl::reverse(mk()); return passes_rv<const C>(r, false, n) + " C -"; }
+        return "BADCASE";
+    }
     auto ven = [](auto& e, std::size_t k) { return visits_en(e, k); };
     auto vrv = [](auto& e, std::size_t k) { return visits_rv(e, k); };
     if (sc == "en2" || sc == "enbe")
@@ -619,6 +695,60 @@ template <bool EN, class It> std::string show(It& it)
 {
     if constexpr (EN) { auto x = *it; return std::to_string(x.index()) + ":" + std::to_string(val(x.value())); }
     else return std::to_string(val(*it));
+}
+// ONE named adaptor: three range-for statements (the second writes when it can), then begin()/end() asked for twice each
+template <class C, class Ad> std::string passes_en(Ad& e, bool write, std::size_t n)
+{
+    std::string v1 = visits_en(e, n);
+    Obs o;
+    for (auto x : e)
+    {
+        if (o.count > n + 2) return "RUNAWAY";
+        auto&& ref = x.value();
+        o.visit_e(x.index(), val(ref));
+        if constexpr (!std::is_const<std::remove_reference_t<decltype(ref)>>::value && !std::is_const<C>::value)
+        {
+            if (write) slot(ref) = fe(x.index(), val(ref));
+        }
+        o.count++;
+    }
+    std::string v3 = visits_en(e, n);
+    auto b1 = e.begin();
+    auto b2 = e.begin();
+    auto e1 = e.end();
+    auto e2 = e.end();
+    std::string v4, v5;
+    std::size_t k = 0;
+    for (auto it = b2; it != e2; ++it) { if (k++ > n + 3) return "RUNAWAY"; join(v4, ",", show<true>(it)); }
+    k = 0;
+    for (auto it = b1; it != e1; ++it) { if (k++ > n + 3) return "RUNAWAY"; join(v5, ",", show<true>(it)); }
+    return "V5 " + v1 + " " + dot(o.vis) + " " + v3 + " " + dot(v4) + " " + dot(v5);
+}
+template <class C, class Ad> std::string passes_rv(Ad& r, bool write, std::size_t n)
+{
+    std::string v1 = visits_rv(r, n);
+    Obs o;
+    for (auto& x : r)
+    {
+        if (o.count > n + 2) return "RUNAWAY";
+        o.visit_r(val(x));
+        if constexpr (!std::is_const<std::remove_reference_t<decltype(x)>>::value && !std::is_const<C>::value)
+        {
+            if (write) slot(x) = fr(val(x));
+        }
+        o.count++;
+    }
+    std::string v3 = visits_rv(r, n);
+    auto b1 = r.begin();
+    auto b2 = r.begin();
+    auto e1 = r.end();
+    auto e2 = r.end();
+    std::string v4, v5;
+    std::size_t k = 0;
+    for (auto it = b2; it != e2; ++it) { if (k++ > n + 3) return "RUNAWAY"; join(v4, ",", show<false>(it)); }
+    k = 0;
+    for (auto it = b1; it != e1; ++it) { if (k++ > n + 3) return "RUNAWAY"; join(v5, ",", show<false>(it)); }
+    return "V5 " + v1 + " " + dot(o.vis) + " " + v3 + " " + dot(v4) + " " + dot(v5);
 }
 template <bool EN, class Ad> std::string manual(Ad& a, std::size_t n)
 {
@@ -1023,6 +1153,7 @@ static std::string run_case(const std::vector<std::string>& w)
             return run_manual(en, mode, [&e] { std::map<int, int> m; for (std::size_t i = 0; i < e.size(); i++) m.emplace(static_cast<int>(i), e[i]); return m; }, n);
         if (k == "fv")
             return run_manual(en, mode, [&e] { nl::fixed_vector<int> v(e.size() + 2); for (int x : e) v.push_back(x); return v; }, n);
+        if (k == "ui") return run_manual(en, mode, [&e] { return UIRange(e); }, n);
         return "BADCASE";
     }
     if (w.size() == 5 && w[0] == "re" && w[3].size() == 1)
@@ -1039,6 +1170,7 @@ static std::string run_case(const std::vector<std::string>& w)
             return run_reuse(w[1], mode, [&e] { std::map<int, int> m; for (std::size_t i = 0; i < e.size(); i++) m.emplace(static_cast<int>(i), e[i]); return m; }, n);
         if (k == "fv")
             return run_reuse(w[1], mode, [&e] { nl::fixed_vector<int> v(e.size() + 2); for (int x : e) v.push_back(x); return v; }, n);
+        if (k == "ui") return run_reuse(w[1], mode, [&e] { return UIRange(e); }, n);
         return "BADCASE";
     }
     if (w.size() != 4 || (w[0] != "en" && w[0] != "rv") || w[2].size() != 1) return "BADCASE";
@@ -1058,6 +1190,7 @@ static std::string run_case(const std::vector<std::string>& w)
         return run_container(en, mode, [&e] { std::map<int, int> m; for (std::size_t i = 0; i < e.size(); i++) m.emplace(static_cast<int>(i), e[i]); return m; }, n);
     if (k == "fv")
         return run_container(en, mode, [&e] { nl::fixed_vector<int> v(e.size() + 2); for (int x : e) v.push_back(x); return v; }, n);
+    if (k == "ui") return run_container(en, mode, [&e] { return UIRange(e); }, n);
     if (k == "arr") return BySize<ArrF>::run(n, en, mode, e);
     if (k == "carr") return BySize<CArrF>::run(n, en, mode, e);
     if (k == "il") return BySize<IL>::run(n, en, mode, e);
